@@ -631,7 +631,7 @@ impl Engine for C02 {
         let mut r = Rng::new(seed);
         let family = if r.chance(1, 3) { Family::Elements } else { Family::Core };
         // ---- choose the base encoding
-        let kind = r.weighted(&[70, 6, 8, 6, 10]);
+        let kind = r.weighted(&[64, 6, 8, 6, 10, 6]);
         let (program, witness, origin): (Vec<u8>, Vec<u8>, String) = match kind {
             0 => {
                 let size = match r.below(4) {
@@ -693,6 +693,20 @@ impl Engine for C02 {
                 out.count("libsimplicity_vectors", 1);
                 // these are Elements programs
                 return self.run_base(Family::Elements, p, w, "libsimplicity-vector".into(), &mut r, tier, out, run);
+            }
+            5 => {
+                let rec = programs::assert_recipe(&mut r, family);
+                match programs::build(&rec) {
+                    Some(b) => {
+                        out.count("assert_recipes_built", 1);
+                        let (p, w) = b.redeem.to_vec_with_witness();
+                        (p, w, format!("asserts:{:?}", rec.ops).chars().take(300).collect())
+                    }
+                    None => {
+                        out.count("recipes_discarded", 1);
+                        return;
+                    }
+                }
             }
             _ => {
                 let n = r.urange(0, 40);
@@ -769,6 +783,7 @@ impl Engine for C02 {
             "canon_unused_node",
             "canon_swapped_order",
             "canon_unshared_duplicate",
+            "canon_repeated_hidden_node",
         ]
     }
 
